@@ -621,6 +621,9 @@ Definition switch_plain_globalb (module : list string) (helpers : list (string *
 Definition modelled_add_loops : list string :=
   ["for member in all_members"; "for t in targets"; "for t in targets"; "for t in targets"].
 Definition modelled_hint_loops : list string := ["targets"].
+(* add() and the factories report through warnings.warn and log records; they do not configure the warnings / logging machinery
+   (no filterwarnings / simplefilter / resetwarnings / logging.disable ...): a later refusal keeps its warning *)
+Definition configures_nothingb (state_calls : list string) : bool := match state_calls with [] => true | _ => false end.
 (* _get_members: the cache has ONE entry per class, written under the class's own name only (current_class), starting from a copy
    of its own list, extended by the ancestors' and rebuilt as a fresh list - so no class's entry is written while another class is
    asked, and no two entries share a list *)
